@@ -60,4 +60,25 @@ def matchOld (colTy : Nat → Nat) (f : KVs) (r : Row) : Bool :=
 def dispatchedOld (colTy : Nat → Nat) (fs : List KVs) (table : List Row) (f : KVs) : List Row :=
   (fetchedOld fs table).filter (matchOld colTy f)
 
+/-! ### the call (`DB.BaseQuery`): the filter is validated before the call may join a batch -/
+
+/-- what a call returns: its rows, or its error -/
+inductive Res
+  | rows (rs : List Row)
+  | err
+  deriving Repr, DecidableEq
+
+/-- a call on its own: `MakeSelectQuery` rejects a filter that names an unknown column or carries a value the
+column's Valuer rejects (`valid`); otherwise the rows of the filter -/
+def callAlone (valid : KVs → Bool) (table : List Row) (f : KVs) : Res :=
+  if valid f then .rows (alone f table) else .err
+
+/-- the same call made together with `calls` under batching: validated first; only valid calls join the batch -/
+def callBatched (valid : KVs → Bool) (calls : List KVs) (table : List Row) (f : KVs) : Res :=
+  if valid f then .rows (dispatched (calls.filter valid) table f) else .err
+
+/-- a design that decides about batching before validating: one invalid member fails the whole batch -/
+def callBatchedLate (valid : KVs → Bool) (calls : List KVs) (table : List Row) (f : KVs) : Res :=
+  if calls.all valid then .rows (dispatched calls table f) else .err
+
 end TM.Sql.Batch
